@@ -10,7 +10,7 @@ Tie:
  (3) twin runs -j1 / -jN of the same world through the real binary, each compared with the sequential
      engine model (Engine.run) and with each other.
 Oracle: the statement on the observed snapshots (contents = source, user's files untouched, no extra path)."""
-import json, os, shutil
+import json, os, shutil, subprocess
 import vlib, world, engine_world as ew, strace_fs
 from common import proof_phase, TRUSTED_COMMON
 
@@ -284,6 +284,40 @@ def run_world(sc, i, seed, reps, known, stats, only_jobs=None):
     return {"viol": viol, "hits": hits, "cases": cases, "obs": obs_l, "metas": metas}
 
 
+def bytes_names_family(sc, r, idx, reps):
+    """file names that are not valid UTF-8 and differ only in the invalid bytes (the working-file name must keep the bytes):
+    several concurrent block-delta updates in one directory; judged on contents only (no --json: such paths cannot be JSON strings)"""
+    base = os.path.join(sc.dir, "bn%d" % idx).encode()
+    src, tpl = base + b"/src", base + b"/tpl"
+    os.makedirs(src); os.makedirs(tpl)
+    want = {}
+    for k in range(r.randrange(3, 7)):
+        name = b"data_" + bytes([0xF0 + k]) + b".bin"
+        data = r.randbytes(ew.BIG + 20000 + 4096 * k)
+        with open(os.path.join(src, name), "wb") as f:
+            f.write(data)
+        with open(os.path.join(tpl, name), "wb") as f:
+            f.write(similar(data, r))
+        os.utime(os.path.join(tpl, name), ns=(ew.T0NS + 5 * NS,) * 2)
+        want[name] = world.sha(os.path.join(src, name))
+    world.sync_fs()
+    fails = []
+    for k, j in enumerate([1] + [r.choice([4, 8, 16]) for _ in range(reps)]):
+        dst = base + b"/dst%d" % k
+        subprocess.run([b"cp", b"-a", tpl, dst], check=True)
+        env = dict(os.environ); env.update(sc.env); env["SY_VERIF_DELTA_THRESHOLD"] = str(ew.BIG)
+        p = subprocess.run([world.SY.encode(), src, dst, b"-j%d" % j, b"-q"], env=env, stdout=subprocess.PIPE, stderr=subprocess.PIPE, timeout=120)
+        names = sorted(os.listdir(dst))
+        bad = [n for n in want if not os.path.isfile(os.path.join(dst, n)) or world.sha(os.path.join(dst, n)) != want[n]]
+        extra = [n for n in names if n not in want]
+        if p.returncode != 0 or bad or extra:
+            fails.append({"world": "bytes-names-%d" % idx, "jobs": j, "family": "twin",
+                          "failure": {"why": "non-UTF-8 names differing only in the invalid byte, -j%d: exit %s, %d files wrong, leftovers %r; %s" % (j, p.returncode, len(bad), [repr(x) for x in extra[:3]], p.stderr.decode("utf-8", "replace")[-200:]), "klass": None}})
+        shutil.rmtree(dst, ignore_errors=True)
+    shutil.rmtree(base, ignore_errors=True)
+    return fails
+
+
 def run(tier, seed):
     res = vlib.Result(PID, tier, seed)
     pr = proof_phase(res, PID)
@@ -298,8 +332,11 @@ def run(tier, seed):
     nworlds = 25 if tier == "quick" else 120
     reps = 3 if tier == "quick" else 8
     cases, obs_l, metas, viol, hits, diffs = [], [], [], [], {}, []
-    stats = {"runs": 0, "delta_updates": 0, "footprint_mutations": 0, "temp_paths_seen": 0, "twin_pairs": 0, "worlds": nworlds}
+    stats = {"runs": 0, "delta_updates": 0, "footprint_mutations": 0, "temp_paths_seen": 0, "twin_pairs": 0, "worlds": nworlds, "bytes_name_worlds": 0}
     with vlib.Scratch() as sc:
+        for bi in range(2 if tier == "quick" else 12):
+            viol += bytes_names_family(sc, vlib.rng_for(seed, "C05-bn%d" % bi), bi, reps)
+            stats["bytes_name_worlds"] = bi + 1
         for i in range(nworlds):
             out = run_world(sc, i, seed, reps, known, stats)
             viol += out["viol"]
